@@ -130,9 +130,10 @@ pub fn parse_conditions(it: &mut LexIterator) -> ParseResult<Vec<AST>> {
 
     if it.eat_if(&Token::NL).is_some() {
         it.eat(&Token::Indent, "conditions")?;
+        it.eat_while(&Token::NL); // there may be blank lines before, between and after conditions
         it.peek_while_not_token(&Token::Dedent, &mut |it, _| {
             conditions.push(*it.parse(&parse_condition, "conditions", start)?);
-            it.eat_if(&Token::NL);
+            it.eat_while(&Token::NL);
             Ok(())
         })?;
         it.eat(&Token::Dedent, "conditions")?;
